@@ -3,6 +3,7 @@ use lightmotif::abc::{Dna, Protein};
 use lightmotif::num::*;
 use lightmotif::pli::{Pipeline, Score};
 use lightmotif::pwm::DiscreteMatrix;
+use lightmotif::scan::Scanner;
 use lightmotif::scores::StripedScores;
 use rand::Rng;
 use serde_json::{json, Value};
@@ -120,6 +121,64 @@ fn run<A: Abc, C: PositiveLength, P: Score<u8, A, C>>(
     rec.nontrivial(&(be, arm_name(arm), A::NAME, C::USIZE, pssm_cells.to_vec(), ranks.to_vec()));
 }
 
+/// "... so the 8-bit pre-filter can produce false candidates but never lose a hit": the real pre-filter user (Scanner,
+/// AVX2 arm / runtime detection) run to exhaustion; the spec re-derives every real score and demands that each position
+/// meeting the threshold was reported.
+fn scan_run(rec: &mut Recorder, arm: Option<Arm>, pssm_cells: &[Vec<i64>], ranks: &[usize], prof: &str, bs: usize, tsel: usize) {
+    type A = Dna;
+    let m = pssm_cells.len();
+    let l = ranks.len();
+    if l < m { return; }
+    let pssm = build_pssm::<A>(pssm_cells);
+    let mut seq = build_seq::<A, U32>(ranks, 0);
+    seq.configure(&pssm);
+    let n = l - m + 1;
+    let mut real: Vec<f32> = (0..n).map(|i| pssm.score_position(&seq, i)).filter(|x| x.is_finite()).collect();
+    real.sort_by(|a, b| b.partial_cmp(a).unwrap());
+    real.dedup();
+    if real.is_empty() { return; }
+    // thresholds: attainable scores (ties with the threshold are where a strict comparison loses hits)
+    let t = real[(tsel * 3) % real.len().min(1 + tsel * 2)];
+    force(arm);
+    let r = guarded(|| {
+        let mut sc = Scanner::new(&pssm, &seq);
+        sc.threshold(t).block_size(bs);
+        let mut hits: Vec<usize> = Vec::new();
+        for _ in 0..(l + 2) {
+            match sc.next() { Some(h) => hits.push(h.position()), None => break }
+        }
+        hits.sort();
+        hits
+    });
+    force(None);
+    let mut o = json!({"ev":"dscan","be":"scanner","arm":arm_name(arm),"abc":A::NAME,"C":32,"K":A::KK,"prof":prof,
+        "seq":ranks,"pssm":pssm_cells,"thr":grid(t, GS),"bs":bs});
+    match r {
+        Ok(h) => { o["ret"] = json!("ok"); o["hits"] = json!(h); }
+        Err(msg) => { rec.class("scanner_panic"); o["ret"] = json!("panic"); o["msg"] = json!(msg); o["hits"] = json!([]); }
+    }
+    rec.reset();
+    rec.emit(o);
+    rec.class("scanner_prefilter");
+    rec.nontrivial(&("scanner", arm_name(arm), pssm_cells.to_vec(), ranks.to_vec(), bs, grid(t, GS)));
+}
+
+/// One row spans almost the whole score range and the sequence avoids its worst symbol: every lane of a vector is in
+/// the upper half of the byte range after that row while the remaining rows still contribute.
+fn dominant<A: Abc>(rng: &mut impl Rng, m: usize, l: usize) -> (Vec<Vec<i64>>, Vec<usize>) {
+    let k = A::KK - 1;
+    let worst = rng.gen_range(0..k);
+    let dom = if rng.gen_bool(0.7) { 0 } else { rng.gen_range(0..m.min(2)) };
+    let cells: Vec<Vec<i64>> = (0..m).map(|i| {
+        let mut row: Vec<i64> = (0..k).map(|j| if i == dom { if j == worst { -160 } else { rng.gen_range(18..=20) } } else { rng.gen_range(-3..=3) }).collect();
+        row.push(NINF);
+        row
+    }).collect();
+    let mut s = random_ranks::<A>(rng, l, 0.0);
+    for x in s.iter_mut() { if *x == worst { *x = (worst + 1) % k; } }
+    (cells, s)
+}
+
 pub fn record(rec: &mut Recorder, seed: u64, thorough: bool) {
     let prof = std::env::var("LMCONFORM_PROFILE").unwrap_or_else(|_| "dev".into());
     let mut r = rng(seed, 8);
@@ -141,6 +200,19 @@ pub fn record(rec: &mut Recorder, seed: u64, thorough: bool) {
                 run::<Dna, U32, _>(rec, &Pipeline::<Dna, _>::dispatch(), "dispatch", Some(arm), &cells, &ranks, &prof, false);
             }
             force(None);
+            scan_run(rec, Some(Arm::Avx2), &cells, &ranks, &prof, [1usize, 2, 3, 256][kind % 4], kind);
+            if kind % 2 == 0 { scan_run(rec, None, &cells, &ranks, &prof, [256usize, 1, 2][kind % 3], kind / 2); }
+            if m >= 2 && m <= 20 {
+                let l = 32 * r.gen_range(2..=5usize) + [0usize, 0, 3, 17][kind % 4];
+                let (cells, ranks) = dominant::<Dna>(&mut r, m, l);
+                run::<Dna, U32, _>(rec, &Pipeline::<Dna, _>::avx2().unwrap(), "avx2", None, &cells, &ranks, &prof, false);
+                force(Some(Arm::Avx2));
+                run::<Dna, U32, _>(rec, &Pipeline::<Dna, _>::dispatch(), "dispatch", Some(Arm::Avx2), &cells, &ranks, &prof, false);
+                force(None);
+                run::<Dna, U32, _>(rec, &Pipeline::<Dna, _>::sse2().unwrap(), "sse2", None, &cells, &ranks, &prof, false);
+                run::<Dna, U32, _>(rec, &Pipeline::<Dna, _>::generic(), "generic", None, &cells, &ranks, &prof, false);
+                rec.class("dominant_row_matrix");
+            }
             if m <= 12 {
                 let cells = gen_pssm::<Protein>(&mut r, m, kind);
                 let ranks = gen_seq::<Protein>(&mut r, l, &cells);
